@@ -1,14 +1,75 @@
 /-
-C10 — Optimizing normalization preserves program behaviour: the registered theorems.
-(The pass-specific lemmas live next to the pass models.)
+C10 — Optimizing normalization preserves program behaviour.
+
+  "For every basic-normalized program and every concrete initial machine state whose stack pointer is
+   aligned at function entry, each function of the optimized program behaves observably like the
+   unoptimized one. It performs the same sequence of memory reads and writes (addresses, sizes and values)
+   and the same sequence of calls, indirect jumps and returns with their call and jump targets, and reaches
+   every call, return and dead end with the same physical-register and memory state."
+
+The pass models are in Trivial / Propagation / DeadVars / ControlFlow / StackAlign.lean, the proofs of the
+pass cores in TrivialProofs / PropagationProofs / DeadVarsProofs / ControlFlowProofs / StackAlignProofs.lean,
+the facts about runs of the reference interpreter in RunLemmas.lean. This file states the property for a
+pass and for the composition, and collects what is proved.
 -/
 import CweModel.C10.Spec
-import CweModel.C10.TrivialProofs
+import CweModel.C10.PropagationProofs
+import CweModel.C10.ControlFlowProofs
+import CweModel.C10.StackAlignProofs
+import CweModel.C10.SpecProofs
 
 namespace CweModel.C10
-open CweModel CweModel.IR
+open CweModel CweModel.IR CweModel.Sem CweModel.C12
 
 /-- **C10-negate-involutive.** `negate_condition` removes a double negation instead of stacking one. -/
 theorem negateCondition_negate (e : Expression) : negateCondition (.UnOp .BoolNegate e) = e := rfl
+
+deriving instance ReflBEq for Event
+
+theorem tracesAgree_refl (a : List Event) : tracesAgree a a = true := by
+  simp only [tracesAgree]
+  split <;> exact beq_self_eq_true _
+
+/-- The property for one pass `pass` (a program transformer that keeps the list of functions): for every
+size-consistent program, every function `s` and its image `s'`, every well-formed initial state with an
+aligned stack pointer and every fuel, if the run of `s` keeps the boolean discipline (H1) and does not get
+stuck (H3), the two runs agree observably (`Sem.tracesAgree`: equal traces, or equal up to the point where
+one of them runs out of fuel).
+
+(H2 "temporaries are local" of Spec.lean is needed by dead-variable elimination only and is part of the
+executable specification; the theorems proved so far do not need it.) -/
+def PassPreserves (env : Env) (ptr : Nat) (align : Nat) (pass : Program → Program) : Prop :=
+  ∀ p : Program, WellSizedProgram p ptr →
+    ∀ ss ∈ p.subs.zip (pass p).subs,
+      ∀ (σ : State) (fuel : Nat), StateWF σ → (σ.getReg env.sp).toNat % align = 0 →
+        (∀ b bs, ss.1.term.blocks = b :: bs → RunOk env ss.1.term.blocks fuel b.tid σ 0) →
+        NoStuck (runSub env ss.1.term σ fuel) →
+        tracesAgree (runSub env ss.1.term σ fuel) (runSub env ss.2.term σ fuel) = true
+
+/-- **The composition theorem in full** (statement): `Project::normalize_optimize` preserves the behaviour
+of every function. Proved so far: the stage `substitute_trivial_expressions` (`trivial_preserves` below) and
+the cores of the other four passes (see the list in props/C10.json). -/
+def NormalizeOptimizePreserves (env : Env) (arch : String) (phys : VarSet) : Prop :=
+  PassPreserves env env.sp.size 16 (normalizeOptimize arch env.sp phys)
+
+theorem zip_map_mem {α β : Type} (f : α → β) (l : List α) (x : α × β) (h : x ∈ l.zip (l.map f)) :
+    x.1 ∈ l ∧ x.2 = f x.1 := by
+  induction l with
+  | nil => cases h
+  | cons a as ih =>
+    simp only [List.map, List.zip_cons_cons, List.mem_cons] at h
+    rcases h with rfl | h
+    · exact ⟨List.mem_cons_self, rfl⟩
+    · exact ⟨List.mem_cons_of_mem _ (ih h).1, (ih h).2⟩
+
+/-- **C10-trivial-preserves (composition, partial).** The stage `Project::substitute_trivial_expressions`
+of `normalize_optimize` preserves the behaviour of every function, in the sense of the property, for ALL
+size-consistent programs, states and fuels. -/
+theorem normalizeOptimize_preserves_partial (env : Env) (ptr align : Nat) :
+    PassPreserves env ptr align substTrivialProgram := by
+  intro p hp ss hss σ fuel hσ _ hok hns
+  obtain ⟨hmem, himg⟩ := zip_map_mem _ _ ss (by simpa [substTrivialProgram, mapProgramSubs] using hss)
+  rw [himg, substTrivial_runSub env ss.1 (hp ss.1 hmem) σ fuel hσ hok hns]
+  exact tracesAgree_refl _
 
 end CweModel.C10
